@@ -671,8 +671,11 @@ pub async fn oracles_c05(t: &Tbl, m: &MManifest, st: &mut Streams, sink: &mut Si
     match &verdict {
         Ok(()) => sink.oracle_ok(),
         Err((p, e)) => {
+            let legacy_tombstone = m.fragments.iter().any(|f| f.files.iter().any(|d| d.ver.0 == 0 && d.ver.1 < 3 && d.fields.contains(&-2)));
             let class = if fri_panic && t.deferred_remap_on_stable {
                 Some("stable_rowids_deferred_remap_unassigned_fragment_ids")
+            } else if !*p && legacy_tombstone && e.contains("contained unsorted or duplicate field ids") {
+                Some("validate_rejects_tombstone_in_legacy_file")
             } else {
                 None
             };
@@ -747,6 +750,18 @@ pub async fn corpus(st: &mut Streams, sink: &mut Sink) {
         }
         after_step(&mut ctx, &mut t, st, sink).await;
         sink.count("e2e:corpus:tombstoned-field-validates");
+    }
+    // (1b) known finding validate_rejects_tombstone_in_legacy_file: the same history on a legacy (0.1) table
+    {
+        let mut ctx = Ctx::default();
+        let mut t = Tbl::create_with(false, LanceFileVersion::Legacy, 1000, 3).await;
+        after_step(&mut ctx, &mut t, st, sink).await;
+        let mut rng = Rng::new(7);
+        if let Err((p, e)) = t.merge_update_columns(&mut rng).await {
+            sink.oracle_fail(None, &format!("corpus: partial-schema merge_insert {}: {e}", if p { "panicked" } else { "failed" }), json!({"history": t.hist}));
+        }
+        after_step(&mut ctx, &mut t, st, sink).await;
+        sink.count("e2e:corpus:tombstoned-field-in-legacy-file");
     }
     // (2) known finding stable_rowids_deferred_remap_unassigned_fragment_ids
     {
